@@ -179,7 +179,7 @@ func runOracle(j Job) *Result {
 				o.vals = append(o.vals, op.Keys[0])
 			}
 		}
-		o.noTaintClasses = i%3 == 0 // a third of the histories stay free of the two recorded memory-mutation triggers
+		o.noTaintClasses = i%3 == 0 || j.Variant == "notaint" // a third of the histories stay free of the two recorded memory-mutation triggers
 		m9 := mon.NewC09(hist)
 		m9.NormMem = normDigest
 		w.Monitors = append(w.Monitors, m9)
